@@ -119,7 +119,33 @@ func genC20Tables(repo string) (string, error) {
 	if lim["MaxIndex"] == "" || lim["MaxNestedNameLevel"] == "" {
 		return "", fmt.Errorf("strvals limits not found")
 	}
+	// pkg/engine/engine.go: const recursionMaxNums = 1000 (bound of include and, since 156f591, tpl nesting)
+	ef, _, err := parseFile(repo, "pkg/engine/engine.go")
+	if err != nil {
+		return "", err
+	}
+	recMax := ""
+	for _, d := range ef.Decls {
+		gd, ok := d.(*ast.GenDecl)
+		if !ok || gd.Tok != token.CONST {
+			continue
+		}
+		for _, s := range gd.Specs {
+			vs := s.(*ast.ValueSpec)
+			for i, n := range vs.Names {
+				if n.Name == "recursionMaxNums" && i < len(vs.Values) {
+					if bl, ok := vs.Values[i].(*ast.BasicLit); ok && bl.Kind == token.INT {
+						recMax = bl.Value
+					}
+				}
+			}
+		}
+	}
+	if recMax == "" {
+		return "", fmt.Errorf("engine recursionMaxNums not found")
+	}
 	return fmt.Sprintf("(* pkg/release/util/manifest_sorter.go: the events map *)\nDefinition hook_events : list (string * string) :=\n  %s.\n\n"+
-		"(* pkg/strvals/parser.go *)\nDefinition strvals_max_index : Z := %s%%Z.\nDefinition strvals_max_nested_name_level : Z := %s%%Z.\n",
-		coqPairs(ks, vs), lim["MaxIndex"], lim["MaxNestedNameLevel"]), nil
+		"(* pkg/strvals/parser.go *)\nDefinition strvals_max_index : Z := %s%%Z.\nDefinition strvals_max_nested_name_level : Z := %s%%Z.\n\n"+
+		"(* pkg/engine/engine.go *)\nDefinition engine_recursion_max_nums : Z := %s%%Z.\n",
+		coqPairs(ks, vs), lim["MaxIndex"], lim["MaxNestedNameLevel"], recMax), nil
 }
